@@ -17,7 +17,7 @@ def main():
     units = []
     # base operations: the whole recursion executed symbolically (no summaries)
     for op in ('and', 'or', 'not', 'implies', 'nor', 'nand', 'var', 'const'):
-        units.append(('%s k=%d full recursion' % (op, kfull), op, kfull, dict(obligations=sem, timeout=to)))
+        units.append(('%s k=%d full recursion' % (op, kfull), op, kfull, dict(obligations=('sem', 'struct', 'panic'), timeout=to)))
     # ... and the inductive step (recursive calls replaced by the contract, arguments checked to be sub-diagrams)
     for op in BASE:
         units.append(('%s k=%d induction step' % (op, kind), op, kind, dict(obligations=sem, inductive=True, timeout=to)))
